@@ -815,9 +815,30 @@ func runC07(w *World, r *Report) {
 				svE = append(svE, passErrNil(c)...)
 			}
 		}
-		ok := len(nvE) > 0 && len(svE) > 0
+		ok := len(nvE) > 0
+		var saveCalls []ssa.CallInstruction
+		for _, c := range callsTo(cl, cn("accountant", "*AccountingBook", "saveVertexToStorage")) {
+			_, a := callArgs(c)
+			if pathOf(a[0]) == v {
+				saveCalls = append(saveCalls, c)
+			}
+		}
+		if len(saveCalls) == 0 {
+			ok = false
+		}
 		for _, ret := range returnsOf(cl) {
-			if successReturn(ret) && !(behind(ret, nvE) && behind(ret, svE)) {
+			if !successReturn(ret) {
+				continue
+			}
+			// success either behind save == nil, or the return propagates the save's own result
+			propagates := false
+			vals, _ := resultVals(ret, 0)
+			for _, sc := range saveCalls {
+				if len(vals) == 1 && sameVal(vals[0], callValue(sc)) {
+					propagates = true
+				}
+			}
+			if !behind(ret, nvE) || !(behind(ret, svE) || propagates) {
 				ok = false
 			}
 		}
